@@ -470,7 +470,8 @@ Section EngineProofs.
     map out_ans (snd (run ev vis true fm l st_init ops)) = map out_ans (snd (run ev vis true fm' l st_init ops')).
   Proof.
     intros U U' E. rewrite (history_answers_now fm l ops U), (history_answers_now fm' l ops' U').
-    rewrite <- (map_ext _ _ (call_spec_erase l)), <- (map_ext _ _ (call_spec_erase l)) at 1.
-    rewrite <- !map_map, E. reflexivity.
+    assert (R : forall cs, map (call_spec l) cs = map (call_spec l) (map erase cs)).
+    { intro cs. rewrite map_map. apply map_ext. intro o. symmetry. apply call_spec_erase. }
+    rewrite (R (calls ops)), (R (calls ops')), E. reflexivity.
   Qed.
 End EngineProofs.
